@@ -242,6 +242,13 @@ func main() {
 		op, arg, m := msgx.GenFun(hx.NewRNG(o.Seed, id))
 		w.Emit("helper", hx.Case{ID: id, Coq: msgx.RunFun(op, arg, m), Desc: map[string]any{"kind": "helper", "op": op, "arg": arg}, FKey: "helper"})
 	}
+	for i := 0; i < nf; i++ {
+		id := fmt.Sprintf("copy/%d", i)
+		if !o.Want(id) {
+			continue
+		}
+		w.Emit("copy", hx.Case{ID: id, Coq: msgx.RunCopy(hx.NewRNG(o.Seed, id)), Desc: map[string]any{"kind": "copy"}, FKey: "copy"})
+	}
 	n := o.Count(700, 15000)
 	for i := 0; i < n; i++ {
 		id := fmt.Sprintf("rnd/%d", i)
@@ -249,7 +256,9 @@ func main() {
 			continue
 		}
 		r := hx.NewRNG(o.Seed, id)
-		if i%2 == 1 {
+		if i%4 == 3 {
+			emit(w, o, id, "copying", msgx.GenCopyingCase(r))
+		} else if i%2 == 1 {
 			emit(w, o, id, "structured", msgx.GenStructuredC03(r))
 		} else {
 			emit(w, o, id, "random", msgx.GenCaseC03(r))
